@@ -20,7 +20,8 @@ Export ==
          nalias |-> nalias, inv |-> Flags, dev |-> Devs,
          ref |-> RefDoc(doc0)])>>)
 
-AllModels == {Cat.models[i].id : i \in DOMAIN Cat.models}
+GenModels == {Cat.models[i].id : i \in {j \in DOMAIN Cat.models : Cat.models[j].family = "gen"}}
+AllModels == {Cat.models[i].id : i \in DOMAIN Cat.models} \ GenModels
 AliasModels == {"collections", "plain", "enum_str", "parsed", "extra", "hooks", "mixany", "setval", "extracyc", "dashed_sav", "dashed", "tree"}
 
 \* cheap structural invariants checked in every state
